@@ -50,8 +50,9 @@ void run(Ctx &ctx, const std::string &w)
     const uint64_t s = (uint64_t)vt::Param(w, "s", 1);
     if (thr < 1 || thr > 64 || ops < 1 || ops > 1000000) return;
 
-    auto *lockMem = new Ipc::ReadWriteLock;
-    Ipc::ReadWriteLock &lock = *lockMem;
+    // zero-filled storage, as in Squid's shared segments (std::atomic_flag `updating` has no initialiser before C++20)
+    void *lockMem = calloc(1, sizeof(Ipc::ReadWriteLock) + 64);
+    Ipc::ReadWriteLock &lock = *new (lockMem) Ipc::ReadWriteLock;
     auto *can = new Canaries();
     verif_canary_rw_excl_write(can->excl, 0);
     verif_canary_rw_append_write(can->app, 0);
@@ -91,8 +92,12 @@ void run(Ctx &ctx, const std::string &w)
                 lock.startAppending(); // readers may be admitted from now on
                 const uint64_t tag = ((uint64_t)(t + 1) << 32) | (uint64_t)(++seq & 0xffffffff);
                 verif_canary_rw_append_write(can->app, tag);
-                delay();
-                if (sharedHolders.load(vt::Rlx) > 0) ++myBeside; // observed event: a reader is inside beside the appender
+                bool beside = false;
+                for (int round = 0; round < 3; ++round) {
+                    delay();
+                    if (sharedHolders.load(vt::Rlx) > 0) beside = true; // observed event: a reader is inside beside the appender
+                }
+                if (beside) ++myBeside;
                 if (verif_canary_rw_append_read(can->app) != tag) fail("rwlock:append-data-changed", "data appended by " + me + " changed while it holds the lock in append mode (second writer)");
                 if (rng.below(2)) {
                     if (lock.stopAppendingAndRestoreExclusive()) {
@@ -191,7 +196,7 @@ void run(Ctx &ctx, const std::string &w)
       << " restoreF:" << (restoredFalse.load() > 0) << " switch:" << (switched.load() > 0);
     ctx.feature(f.str(), excls.load() > 0 && shareds.load() > 0);
     delete can;
-    delete lockMem;
+    free(lockMem);
 }
 
 int drive(Ctx &ctx) { return vh::Loop(ctx, gen, run); }
